@@ -105,12 +105,23 @@ def run(chk):
             shown = str(v.v) if isinstance(v, Const) else ("the PooledClient's own `%s` option" % v.name if isinstance(v, pooled_an.P) else str(v))
         r3.expect(ok, "_create_client: inner clients get ignore_exc=False", "PooledClient._create_client:ignore_exc", "inner clients are created with ignore_exc=%s: a failure inside the bracket would be invisible to the pool and the broken connection released for reuse" % shown, fn=cc, node=cc.node)
 
+    # what the pool does to an object it drops (idle eviction inside get(), destroy(), clear()) is the after_remove
+    # callback: it must close the connection and do nothing that can fail - it runs outside any caller's error handling
+    cbs = pooled_an.after_remove_calls(prog)
+    if cbs is None:
+        r3.undecided("PooledClient.__init__:after_remove", "the after_remove callback of the pool is not a lambda this analysis can follow")
+    else:
+        r3.floor("ObjectPool constructions in PooledClient.__init__", len(cbs), 1)
+        for calls in cbs:
+            r3.expect(calls == ("close",), "the pool's after_remove callback closes the removed client and does nothing else", "PooledClient.__init__:after_remove", "the pool's after_remove callback does %s with a client it drops instead of just close(): Client.close() cannot fail (C06.R6), anything else (a command such as quit) talks to a possibly dead connection from inside ObjectPool.get/destroy/clear, where the failure escapes calls that should have seen a healthy connection or a swallowed error" % (list(calls) or "nothing"), fn=pinit, node=pinit.node)
+
     from . import rules_C01, report
 
     report.include_rules(chk, r3, rules_C01, ("C01.R1",), "a connection on which a call failed is closed by the inner client itself, whatever the pool then does with the client object")
     # "discarded" means closed: destroy() -> after_remove -> Client.close, which must close the socket on every path
     from . import rules_C06
 
+    report.include_rules(chk, r3, rules_C06, ("C06.R1",), "a connection attempt that fails leaves no open socket behind (every socket created in _connect is closed or kept in self.sock)")
     report.include_rules(chk, r3, rules_C06, ("C06.R6",), "discarding a failed connection closes its socket: Client.close closes the socket and resets self.sock on every path, whatever the socket's state")
 
     # ---------------- R4/R5 on ObjectPool.get and release
